@@ -6,7 +6,7 @@ import random
 from common import *
 
 PROP = "C18"
-PROP_FILES = ["Properties/C18.v", "Check/C18Check.v"]
+PROP_FILES = ["Properties/C18.v", "Check/C18Check.v", "Check/C18HistCheck.v"]
 
 # quirk signature -> (bit in the Coq classification, field of the quirks record)
 QUIRKS = [("evalvalue-full-scope", 8, "q_evalvalue_full_scope"),
@@ -569,10 +569,21 @@ def table_rows(vh):
 def main(tier, seed, replay=None):
     run = Run(PROP, tier, seed)
     vh, proof = prepare(PROP_FILES, thorough=(tier == "thorough"))
+    import c18_hist
+    hists = []
     if replay:
         rp = json.load(open(replay))
         tcases = []
         cases = []
+        if isinstance(rp.get("case"), dict) and rp["case"].get("stream") == "history":
+            hists = [c18_hist.from_replay(rp["case"])]
+            rp = {}
+        else:
+            for ent in rp.get("no_longer_checks", []):
+                if isinstance(ent.get("case"), dict) and ent["case"].get("stream") == "history":
+                    hists = [c18_hist.from_replay(ent["case"])]
+                    rp = {}
+                    break
         if "case" not in rp:
             # a correspondence replay (no-failing-input-found): re-run its first recorded case
             for ent in rp.get("no_longer_checks", []):
@@ -593,7 +604,23 @@ def main(tier, seed, replay=None):
                     continue          # enumerated streams do not depend on the seed
                 c["id"] = len(cases)
                 cases.append(c)
-    outs, results = run_cases(run, vh, cases)
+        # histories of evaluators (several sandboxes created and used in one run): own PRNG derived from the seed
+        hists = c18_hist.gen_histories(random.Random("c18-hist-%d" % seed), tier)
+    # the history stream runs beside the single-sandbox streams (separate harness processes and coqc runs)
+    import concurrent.futures
+    t_h = time.time()
+
+    def hist_job():
+        r = c18_hist.run_histories(run, vh, hists) if hists else ({}, {})
+        return r, round(time.time() - t_h, 1)
+    with concurrent.futures.ThreadPoolExecutor(max_workers=1) as hex_:
+        hfut = hex_.submit(hist_job)
+        outs, results = run_cases(run, vh, cases)
+        t_c = round(time.time() - t_h, 1)
+        (houts, hresults), t_hist = hfut.result()
+    hist_cov = c18_hist.judge(run, hists, houts, hresults)
+    hist_cov["wall_s"] = t_hist
+    hist_cov["wall_s_single_sandbox_streams_alongside"] = t_c
     open_sigs = {f["sig"] for f in run.opened}
     hist = {"stream": {}, "mode": {}, "status": {}, "classes_observed": {}, "effects_observed": {}, "quirk_dependent": {}}
     seen, dist, guard_false, incomparable, noted = set(), 0, 0, 0, 0
@@ -693,7 +720,11 @@ def main(tier, seed, replay=None):
             key = ".".join(p[2:] if p[:2] == ["std", "safe"] else p)
             run.classify_failure(KNOWN_EXCEPTIONS.get(key), {"case": cases[0], "observed": o})
     run.cov.update({
-        "evaluations": len(cases) + len(tcases), "distinct_nontrivial": dist,
+        "evaluations": len(cases) + len(tcases) + len(hists), "distinct_nontrivial": dist,
+        "evaluator_histories": dict(hist_cov, count=len(hists),
+                                    rule="history = let-bound factories / configs / evaluators + an ordered list of uses (evaluator, source, "
+                                         "representation); run driven (the harness applies X.eval per use) or inline (one arr.ai program); per use: "
+                                         "status, marker names, runtime-fs read; compared with hist_run no_memo (= each use alone) in Coq"),
         "rule": "case = (mode, configuration tree, sandboxed source tree); rendered to arr.ai and run through syntax.EvalWithScope(SafeStdScope) "
                 "(mode safe) or through a top-level //eval.evaluator(cfg).eval(src) (mode top) with a recording in-memory fs and a refusing "
                 "transport; the same trees run through the Coq model by vm_compute; distinct by source text; non-trivial = evaluates to a value "
